@@ -37,7 +37,7 @@ def strategy(tier):
 
 
 def n_random(tier):
-    return 1000 if tier == "quick" else 60000
+    return 1000 if tier == "quick" else 6000
 
 
 def check(case):
